@@ -244,6 +244,9 @@ package fsutil
 //@   ensures off: s.progressCb == nil ==> cnt(Progress) == old(cnt(Progress)) && s.progressCurrent == old(s.progressCurrent)
 //@   ensures on: s.progressCb != nil ==> cnt(Progress) == old(cnt(Progress)) + 1 && arg(Progress, 0) == old(s.progressCurrent) + size && arg(Progress, 1) == last && s.progressCurrent == old(s.progressCurrent) + size
 //@   ensures bracket: cnt(MuLock) - old(cnt(MuLock)) == cnt(MuUnlock) - old(cnt(MuUnlock))
+// the callback runs while the lock is held: concurrent reporters (walker, four workers) then
+// deliver their totals in the order they were computed, i.e. non-decreasing
+//@   ensures callback_under_lock: s.progressCb != nil ==> when(MuLock) < when(Progress) && when(Progress) < when(MuUnlock)
 
 // one DATA packet per non-empty chunk, nothing for an empty one
 //@ func fileSender.Write
